@@ -255,7 +255,14 @@ class Batch:
                 if where == "module" and line is not None and self.cases[cid].assert_line is not None and line >= self.cases[cid].assert_line \
                         and self.cases[cid].asserts:
                     where = "assert"
-                newly.setdefault(cid, []).append({"code": code, "msg": message[:300], "where": where, "line": line, "derive": derive})
+                srcline = None
+                if where in ("module", "assert") and line is not None and fname:
+                    try:
+                        with open(os.path.join(self.dir, self.crate(k), "src", fname)) as fh:
+                            srcline = fh.read().split("\n")[line - 1].strip()[:200]
+                    except Exception:
+                        srcline = None
+                newly.setdefault(cid, []).append({"code": code, "msg": message[:300], "where": where, "line": line, "derive": derive, "src": srcline})
             if not newly:
                 raise MachineryError("cargo failed without attributable errors:\n" + stderr[-4000:])
             for cid, es in newly.items():
